@@ -17,18 +17,21 @@
 EXTENDS SigRules, TLC, Json
 
 CONSTANTS MaxLog, MaxVariantCalls,
+          Kinds,    \* what kind of RRset the history is run on: "data" (an ordinary RRset signed by the zone
+                    \* key) or "dnskey" (the zone's DNSKEY RRset, signed by its DS-matched key signing key
+                    \* under a DS chain).  The requirements do not depend on it.
           Cfgs      \* validation-cache TTL configurations of the validator to run the history under:
                     \* "none" (default), "minAbove" (minimum above any signature lifetime of the case),
                     \* "maxBelow" (maximum of one second).  The requirements do not depend on it.
 
-VARIABLES gclk, gest, glog, gnvar, gcfg
+VARIABLES gclk, gest, glog, gnvar, gcfg, gkind
 
-gvars == <<gclk, gest, glog, gnvar, gcfg>>
+gvars == <<gclk, gest, glog, gnvar, gcfg, gkind>>
 
 IsVariant(a) == a.rr # "genuine" \/ a.sig # "genuine" \/ a.key # "genuine"
 NCalls == Cardinality({i \in 1..Len(glog) : glog[i].op = "v"})
 
-GInit == gclk \in ClkStarts /\ gest = FALSE /\ glog = <<>> /\ gnvar = 0 /\ gcfg \in Cfgs
+GInit == gclk \in ClkStarts /\ gest = FALSE /\ glog = <<>> /\ gnvar = 0 /\ gcfg \in Cfgs /\ gkind \in Kinds
 
 GCall(a) ==
     /\ a \in ArgSet /\ Len(glog) < MaxLog /\ NCalls < MaxCalls
@@ -44,14 +47,14 @@ GCall(a) ==
                              stray |-> HasStray(a), mayStray |-> MayStraySecure,
                              fresh |-> IF FreshSecure(a, gclk) THEN "Secure" ELSE "NotSecure"])
     /\ gest' = (gest \/ Establishes(a, gclk))
-    /\ UNCHANGED <<gclk, gcfg>>
+    /\ UNCHANGED <<gclk, gcfg, gkind>>
 
 GAdvance(d) ==
     /\ d \in Steps /\ Len(glog) < MaxLog - 1
     /\ glog # <<>> /\ glog[Len(glog)].op = "v"      \* time passes between calls only
     /\ gclk' = (gclk + d) % M
     /\ glog' = Append(glog, [op |-> "adv", d |-> d])
-    /\ UNCHANGED <<gest, gnvar, gcfg>>
+    /\ UNCHANGED <<gest, gnvar, gcfg, gkind>>
 
 GNext == (\E a \in ArgSet : GCall(a)) \/ (\E d \in Steps : GAdvance(d))
 GSpec == GInit /\ [][GNext]_gvars
@@ -61,7 +64,7 @@ GSpec == GInit /\ [][GNext]_gvars
 \* those whose last call is a variant)
 Complete == glog # <<>> /\ glog[Len(glog)].op = "v"
 
-Case == [cfg |-> gcfg, start |-> glog[1].clk, inc |-> Inc, exp |-> Exp, incAlt |-> IncAlt, expAlt |-> ExpAlt,
+Case == [cfg |-> gcfg, kind |-> gkind, start |-> glog[1].clk, inc |-> Inc, exp |-> Exp, incAlt |-> IncAlt, expAlt |-> ExpAlt,
          origTtl |-> OrigTtl, origTtlAlt |-> OrigTtlAlt, nameCaseSigned |-> NameCaseSigned, log |-> glog]
 
 Emit == Complete => PrintT(<<"REPLAY", ToJson(Case)>>)
